@@ -395,17 +395,17 @@ def run(repo, res, tier):
     c10.outfile_rule(repo, res)  # `having written a complete script`: the destination holds this run's bytes only
     from vlib import rules_skips as SK, tables
     n_sk = SK.skips_rule(repo, res, tables.load("skips")["row"], only={"check::get_nonterminals_resolution_order", "check::traverse_nonterminal_dependencies_dfs", "check::get_not_depended_on_nonterminals"})
-    res.floor("SKIPS", n_sk, 12)
+    res.floor("SKIPS", n_sk, 6)
     exit_rule(repo, mir, reach, inv, res)
     rec_rule(repo, mir, reach, res)
     ord_rule(repo, mir, res)
     spanline_rule(repo, res)
     callgraph_soundness(mir, reach, res)
     c15.warn_rules(repo, res)
-    res.floor("PANIC", res.count("PANIC"), 90)
-    res.floor("ARITH", res.count("ARITH"), 20)
+    res.floor("PANIC", res.count("PANIC"), 53)
+    res.floor("ARITH", res.count("ARITH"), 15)
     res.check(res.engines["M"].get("arith_add_sites", 0) >= 45, "ARITH", "ARITH:site-floor", f"{res.engines['M'].get('arith_add_sites', 0)} additions recognised (floor 45: 37 inline + 25 through `&u32 + u32` counted on the unchanged tree)", "")
-    res.floor("REC", res.count("REC"), 24)
-    res.floor("ORD", res.count("ORD"), 10)
-    res.floor("EXIT", res.count("EXIT"), 5)
+    res.floor("REC", res.count("REC"), 14)
+    res.floor("ORD", res.count("ORD"), 5)
+    res.floor("EXIT", res.count("EXIT"), 2)
     res.check(len(reach) >= 380, "CG", "CG:reach-floor", f"{len(reach)} local functions reachable from main (floor 380)", "")
